@@ -744,6 +744,9 @@ func (ex *Exec) applyContract(st *State, fn *types.Func, fs *FuncSpec, u *Unit, 
 	if u != nil && !fs.Pure {
 		if fs.AssignsNone {
 			// checked on the callee's side (assigns-none obligation)
+		} else if frameChecked(fs) {
+			// the callee's own postcondition writesOnlySpare(x) states (and its
+			// obligations prove) a frame at least as tight as `modifies Mem(x)`
 		} else if len(fs.Modifies) == 0 {
 			ex.W.Trusted["frame (unchecked): "+key+" is assumed to change nothing its callers can see except objects it allocates (its contract has no modifies clause)"] = true
 		} else {
@@ -1433,4 +1436,24 @@ type groupDelta struct {
 	base  map[string]*Val
 	ghost map[string]*Val
 	facts []*Term
+}
+
+// frameChecked: the contract's only modifies clause is Mem(x) and one of its
+// postconditions is exactly writesOnlySpare(x), so the frame the callers rely
+// on is an obligation of the callee rather than an assumption.
+func frameChecked(fs *FuncSpec) bool {
+	if len(fs.Modifies) != 1 {
+		return false
+	}
+	m := strings.TrimSpace(fs.Modifies[0])
+	if !strings.HasPrefix(m, "Mem(") || !strings.HasSuffix(m, ")") {
+		return false
+	}
+	want := "writesOnlySpare(" + strings.TrimSpace(m[4:len(m)-1]) + ")"
+	for _, c := range fs.Ensures {
+		if strings.TrimSpace(c.Expr) == want {
+			return true
+		}
+	}
+	return false
 }
